@@ -392,6 +392,7 @@ func (ex *Exec) pseudoFrame(fn *ssa.Function, key string, sp *FuncSpec, args []V
 
 func (ex *Exec) contractCall(st *State, fr *Frame, instr ssa.Instruction, fn *ssa.Function, key string, sp *FuncSpec, args []Val, binds []Val, resT types.Type) Val {
 	ex.use("contract:" + key)
+	ex.callUnderLock(st, fr, instr, fn, key)
 	st.bump("call:" + key)
 	pf := ex.pseudoFrame(fn, key, sp, args, binds, st)
 	ord := 0
